@@ -110,3 +110,12 @@ Proof.
   - intros fs n h. now apply addSimplex_respects.
 Qed.
 Print Assumptions C05_continuation_after_a_rejected_request.
+
+(* a basis that already defines a simplex: addSimplexWithBasis raises KeyError and changes nothing observable (only the
+   allocation counter of attribute dictionaries may have moved) *)
+From SV Require AtomicAwb.
+Theorem C05_addSimplexWithBasis_existing_basis :
+  forall r bs id attr s, bs <> [] -> c_simplexWithBasis r bs false = Ok (Some s) ->
+  exists r', c_addSimplexWithBasis r bs id attr = (r', Raise KeyError) /\ same_obs r r'.
+Proof. exact AtomicAwb.addSimplexWithBasis_existing_basis. Qed.
+Print Assumptions C05_addSimplexWithBasis_existing_basis.
